@@ -242,6 +242,8 @@ def main(args):
         if args and mid not in args:
             continue
         meta = json.load(open(os.path.join(d, "meta.json")))
+        if meta.get("expect") == "clean":
+            EXPECT_CLEAN[mid] = "independently written change that keeps the property"
 
         def apply_fn(repo, d=d):
             subprocess.run(["git", "apply", os.path.join(d, "patch.diff")], check=True, cwd=repo)
